@@ -504,6 +504,13 @@ def pairs(draw, tier, learn, eval_, score_style_logs):
     complete = fbits >> 4 != 0
     flag = lambda i, name: bool((name in need or fbits >> i & 1) if complete else fbits >> i & 1)
     fields = {"actions": flag(0, "actions"), "rewards": flag(1, "rewards"), "logged": flag(2, "action"), "probability": flag(3, "probability")}
+    if fbits >> 4 == 1:
+        # everything the mode needs EXCEPT one required group: the environments that must be rejected although most of what
+        # the mode needs is there (e.g. learn='off' with eval='on' on purely simulated interactions)
+        groups = [g for g, key in (("actions", "actions"), ("rewards", "rewards"), ("logged", "action"), ("probability", "probability")) if key in need]
+        if groups:
+            fields = {"actions": True, "rewards": True, "logged": True, "probability": True}
+            fields[groups[(fbits & 3) % len(groups)]] = False
     if score_style_logs and eval_ == "ips" and learn in (None, "off") and coin():
         # a log without action sets: enough for score-based IPS, not enough for a learner without score
         fields = {"actions": False, "rewards": False, "logged": True, "probability": bool(fbits & 1)}
@@ -580,7 +587,9 @@ def classes(case):
         if case["learn"] and caps[0] != caps[1]: out.append("mixed:predict-" + ("yes" if caps[0] else "no") + "/learn-" + ("yes" if caps[1] else "no"))
         if lr["score"] and case["eval"] == "ips" and caps[2] != caps[0]: out.append("mixed:score differs from predict")
     if not env["rows"]: out.append("empty-env")
-    elif strict: out.append("must-reject")
+    elif strict:
+        out.append("must-reject")
+        out.append("must-reject:only " + "+".join(sorted(strict)) + " missing" if len(needs(case["learn"], case["eval"]) - strict) >= 2 else "must-reject:little present")
     elif lenient: out.append("lenient-missing")
     else: out.append("accepted")
     if env["extras"]: out.append("extras")
